@@ -72,6 +72,8 @@ def show_type(t):
             return "fn(%s)->%s" % (",".join(show_type(x) for x in t[1]), show_type(t[2]))
         if t[0] == "tuple":
             return "tuple(%s)" % ",".join(show_type(x) for x in t[1])
+        if t[0] == "dict":
+            return "dict:%s" % t[1]
     return t
 
 
@@ -79,6 +81,8 @@ def parse_type(s):
     s = s.strip()
     if s in ("int", "float", "ratio", "bool", "unit", "optfloat"):
         return s
+    if s.startswith("dict:") and re.match(r"^[A-Za-z][A-Za-z0-9_]*$", s[5:]):
+        return ("dict", s[5:])        # a dict with the fixed key set SPEC gives under "dicts" (a Coq record)
     if s.startswith("list[") and s.endswith("]"):
         return ("list", parse_type(s[5:-1]))
     def split_top(args):
@@ -121,6 +125,8 @@ def coq_type(t):
         return " -> ".join([paren_type(a) for a in t[1]] + ["gres %s" % paren_type(t[2])])
     if t[0] == "tuple":
         return " * ".join(paren_type(a) for a in t[1])
+    if t[0] == "dict":
+        return "%s T" % t[1]
     raise Untranslatable("bad type %r" % (t,))
 
 
@@ -136,7 +142,7 @@ Type using where with do K T IndexError ValueError TypeError ZeroDivisionError G
 
 
 def mangle(name):
-    return name + "_" if name in RESERVED or name.startswith("v_") else name
+    return name + "_" if name in RESERVED or name.startswith("v_") or name.startswith("self_") else name
 
 
 EXC = {"ValueError": "ValueError", "TypeError": "TypeError", "IndexError": "IndexError",
@@ -289,6 +295,12 @@ class FunTrans(object):
         self.facts = {}           # name -> c : `name >= c` holds from here on (after `if name < c: return ...`)
         self.local_fns = {}       # nested function name -> {"owned": [...]}
         self.outer_names = ()     # (nested functions) the variables of the enclosing function
+        # methods: SPEC names them Class.method; `self` is not a value of the generated code, the attributes SPEC lists under
+        # "self_attrs" (self._span_func) become parameters self_<attr> that take the place of `self`
+        self.cls = fspec["name"].split(".")[0] if "." in fspec["name"] else None
+        self.selfname = None
+        self.selfattrs = []       # (attribute, type)
+        self.readonly = set()     # local names given to (parts of) a dict argument: never updated in place
         # a function that never updates a list in place may give a list a second name
         if not mutates_lists(fdef.body):
             self.alias_ok = True
@@ -313,6 +325,16 @@ class FunTrans(object):
             if name not in IGNORED_DECORATORS:
                 fail(f, "unknown decorator")
         allnames = [x.arg for x in a.args]
+        if self.cls is not None:
+            if not allnames:
+                fail(f, "a method without a self parameter")
+            self.selfname, allnames = allnames[0], allnames[1:]
+            if self.selfname in assigned_names(f.body) or self.selfname in allnames or a.kwarg and a.kwarg.arg == self.selfname:
+                fail(f, "the self parameter is rebound")
+            for attr in sp.get("self_attrs", {}):
+                self.selfattrs.append((attr, parse_type(sp["self_attrs"][attr])))
+        elif sp.get("self_attrs"):
+            fail(f, "self_attrs in the spec of a plain function")
         self.all_params = allnames
         for n in self.static_vals:
             if n not in allnames:
@@ -407,6 +429,28 @@ class FunTrans(object):
         if fn is not None:
             return [], "(%s K)" % fn["coqname"], fn["fntype"]
         fail(node, "variable %s is not (definitely) bound here" % node.id)
+
+    def selfattr(self, node, env):
+        """self.<attr> for an attribute SPEC lists under self_attrs -> (coq name, type), else None"""
+        if isinstance(node, ast.Attribute) and isinstance(node.value, ast.Name) and self.selfname is not None \
+                and node.value.id == self.selfname and self.selfname not in env and isinstance(node.ctx, ast.Load):
+            for attr, t in self.selfattrs:
+                if attr == node.attr:
+                    return "self_" + attr, t
+            fail(node, "the attribute %s of self is not in the spec (self_attrs)" % node.attr)
+        return None
+
+    def e_Attribute(self, node, env):
+        sa = self.selfattr(node, env)
+        if sa is not None:
+            return [], sa[0], sa[1]
+        fail(node, "attribute access not understood")
+
+    def dict_fields(self, dname, node):
+        d = self.m.spec.get("dicts", {}).get(dname)
+        if d is None:
+            fail(node, "the dict type %s is not in the spec (dicts)" % dname)
+        return d
 
     def e_UnaryOp(self, node, env):
         b, x, t = self.expr(node.operand, env)
@@ -610,6 +654,15 @@ class FunTrans(object):
             return self.slice_expr(node, env)
         bl, l, tl = self.expr(node.value, env)
         tl = resolve(tl)
+        if isinstance(tl, tuple) and tl[0] == "dict":
+            # d['key'] on a dict with the fixed key set of SPEC: the projection of the record
+            k = node.slice
+            fields = self.dict_fields(tl[1], node)
+            if not (isinstance(k, ast.Constant) and isinstance(k.value, str)):
+                fail(node, "a dict may only be indexed by a literal key")
+            if k.value not in fields:
+                fail(node, "the key %r is not in the spec of the dict type %s" % (k.value, tl[1]))
+            return bl, "(%s_%s %s)" % (tl[1], k.value, l), parse_type(fields[k.value])
         if isinstance(tl, tuple) and tl[0] == "tuple":
             # t[k] on a tuple (a Coq pair ((a, b), c)) with a literal index inside the tuple
             k = node.slice
@@ -784,30 +837,27 @@ class FunTrans(object):
         if isinstance(f, ast.Attribute) and isinstance(f.value, ast.Name) and f.value.id == "math" and "math" not in env \
                 and "math" in self.m.plain_imports:
             return self.math_call(node, env)
+        if isinstance(f, ast.Attribute) and isinstance(f.value, ast.Name) and f.value.id == "copy" and "copy" not in env \
+                and "copy" in self.m.plain_imports and f.attr == "deepcopy":
+            return self.p_deepcopy(node, env)          # copy.deepcopy(x): values are immutable here
+        sa = self.selfattr(f, env)
+        if sa is not None:
+            # self._span_func(...): the call of a function-typed attribute of self (a parameter of the generated function)
+            return self.call_fnvalue(sa[0], sa[1], node, env)
+        if isinstance(f, ast.Attribute) and isinstance(f.value, ast.Call) and isinstance(f.value.func, ast.Name) \
+                and f.value.func.id == "super" and "super" not in env:
+            return self.call_super(node, env)
         if isinstance(f, ast.Name) and f.id not in env:
             prim = getattr(self, "p_" + f.id, None)
             if prim is not None and f.id in PRIMITIVES:
                 return prim(node, env)
         # call of a function-typed variable or of a translated function
         if isinstance(f, ast.Name) and f.id in env:
-            ft = resolve(env[f.id])
-            if not (isinstance(ft, tuple) and ft[0] == "fn"):
-                fail(node, "call of a non-function")
-            if node.keywords or len(node.args) != len(ft[1]):
-                fail(node, "call of a function argument: arity")
             if self.local_fns.get(f.id, {}).get("owned"):
-                fail(node, "a nested function that updates its argument in place may only be used in reduce(f, xs, fresh)")
-            b, xs = [], []
-            for a, t in zip(node.args, ft[1]):
-                ba, x, ta = self.expr(a, env)
-                if resolve(t) == "float" and resolve(ta) == "int":
-                    x = self.coerce_operand(a, x, ta, node)
-                else:
-                    unify(ta, t, node)
-                b += ba; xs.append(x)
-            v = self.fresh()
-            self.callee_raises |= set(EXC.values())       # an argument function may raise anything
-            return b + ["do %s <- %s %s ;;" % (v, mangle(f.id), " ".join(xs))], v, ft[2]
+                if isinstance(resolve(env[f.id]), tuple) and resolve(env[f.id])[0] == "fn" and not node.keywords \
+                        and len(node.args) == len(resolve(env[f.id])[1]):
+                    fail(node, "a nested function that updates its argument in place may only be used in reduce(f, xs, fresh)")
+            return self.call_fnvalue(mangle(f.id), env[f.id], node, env)
         name = None
         if isinstance(f, ast.Name):
             name = f.id
@@ -821,7 +871,46 @@ class FunTrans(object):
             fail(node, "call of %s: not a translated function or a primitive" % (name or "an expression"))
         return self.call_translated(fn, node, env)
 
-    def call_translated(self, fn, node, env):
+    def call_fnvalue(self, term, ft, node, env):
+        """the call of a function-typed variable (an argument function, a nested function, an attribute of self)"""
+        ft = resolve(ft)
+        if not (isinstance(ft, tuple) and ft[0] == "fn"):
+            fail(node, "call of a non-function")
+        if node.keywords or len(node.args) != len(ft[1]):
+            fail(node, "call of a function argument: arity")
+        b, xs = [], []
+        for a, t in zip(node.args, ft[1]):
+            ba, x, ta = self.expr(a, env)
+            if resolve(t) == "float" and resolve(ta) == "int":
+                x = self.coerce_operand(a, x, ta, node)
+            else:
+                unify(ta, t, node)
+            b += ba; xs.append(x)
+        v = self.fresh()
+        self.callee_raises |= set(EXC.values())       # an argument function may raise anything
+        return b + ["do %s <- %s %s ;;" % (v, term, " ".join(xs))], v, ft[2]
+
+    def call_super(self, node, env):
+        """super(Class, self).method(args): the method of the nearest base class that defines it (single inheritance, plain
+        classes only); it must have been translated (SPEC order).  The attributes of self it uses are passed on."""
+        f = node.func
+        sup = f.value
+        if self.cls is None or sup.keywords or len(sup.args) != 2 or not all(isinstance(a, ast.Name) for a in sup.args) \
+                or sup.args[0].id != self.cls or sup.args[1].id != self.selfname or self.cls in env or self.selfname in env:
+            fail(node, "super() form: only super(<this class>, self) inside a method")
+        owner = self.m.super_owner(self.cls, f.attr, node)
+        fn = self.m.funcs.get("%s.%s" % (owner, f.attr))
+        if fn is None:
+            fail(node, "the method %s.%s is not translated (before this one)" % (owner, f.attr))
+        prefix = []
+        mine = dict(self.selfattrs)
+        for attr, t in fn["selfattrs"]:
+            if attr not in mine or resolve(mine[attr]) != resolve(t):
+                fail(node, "the callee uses self.%s, which is not in the spec of this method (self_attrs)" % attr)
+            prefix.append("self_" + attr)
+        return self.call_translated(fn, node, env, prefix)
+
+    def call_translated(self, fn, node, env, prefix=()):
         b, xs = [], []
         allp = fn.get("all_params", [p for p, _ in fn["params"]])
         statics = fn.get("static", [])
@@ -857,9 +946,15 @@ class FunTrans(object):
         pnames = [p for p, _ in fn["params"]]
         given = given_all
         kwgiven = {}
+        forwarded = False
         for kw in keywords:
             if kw.arg is None:
-                fail(node, "**kwargs in a call")
+                # f(..., **kwargs) with the function's own **kwargs: every keyword the callee reads is passed on (the callee's
+                # keys must be keys of this function's spec, with the same types)
+                if not (isinstance(kw.value, ast.Name) and kw.value.id == self.kwname and self.kwname not in env) or forwarded:
+                    fail(node, "** in a call: only the function's own **kwargs, once")
+                forwarded = True
+                continue
             if kw.arg in pnames:
                 if kw.arg in given:
                     fail(node, "argument given twice")
@@ -889,6 +984,15 @@ class FunTrans(object):
             if k in kwgiven:
                 ba, x, ta = self.expr(kwgiven[k], env)
                 unify(ta, fn["kwparams"][k], node); b += ba; xs.append(x)
+            elif forwarded:
+                if k not in self.kwparams or resolve(self.kwparams[k]) != resolve(fn["kwparams"][k]):
+                    fail(node, "**kwargs passed on: the keyword %s of the callee is not in the spec of this function" % k)
+                # the default of a keyword that is only passed on is the callee's
+                dflt = None if k in fn["kwnodefault"] else "(%s__default_%s K)" % (fn["coqname"], k)
+                if k in self.kwdefaults and self.kwdefaults[k] != dflt:
+                    fail(node, "keyword %s: passed on to a callee with another default" % k)
+                self.kwdefaults[k] = dflt
+                xs.append("kw_" + k)
             elif k in fn["kwnodefault"]:
                 fail(node, "keyword argument %s has a computed default: give it explicitly" % k)
             else:
@@ -901,7 +1005,7 @@ class FunTrans(object):
             xs += ["py_inf", "py_ninf"]
         v = self.fresh()
         self.callee_raises |= set(fn.get("raises", ()))
-        return b + ["do %s <- %s K %s ;;" % (v, fn["coqname"], " ".join(xs))], v, fn["rtype"]
+        return b + ["do %s <- %s K %s ;;" % (v, fn["coqname"], " ".join(list(prefix) + xs))], v, fn["rtype"]
 
     def pick_type_variant(self, fn, given, keywords, env, node):
         """the variant of fn (the function itself or one of its "type_variants") whose parameter types are the types of the
@@ -1252,6 +1356,8 @@ class FunTrans(object):
     def check_mutable(self, name, env, node):
         if name not in env:
             fail(node, "variable %s is not bound" % name)
+        if name in self.readonly:
+            fail(node, "in-place update of %s, a part of a dict argument (visible to the caller; not modelled)" % name)
         if name in [p for p, _ in self.params] and name not in self.rebound:
             fail(node, "in-place update of the argument %s (visible to the caller; not modelled)" % name)
         if name in self.outer_names and name not in [p for p, _ in self.params] and name not in self.rebound:
@@ -1263,8 +1369,42 @@ class FunTrans(object):
         tgt = s.targets[0]
         if isinstance(tgt, ast.Tuple) and isinstance(s.value, ast.Tuple) and len(tgt.elts) == len(s.value.elts):
             return self.assign_display(tgt, s.value, s, rest, env, ctx, ind)
-        b, x, t = self.expr(s.value, env)
-        return self.assign_to(tgt, b, x, t, s.value, s, rest, env, ctx, ind)
+        value = s.value
+        if isinstance(tgt, ast.Name) and isinstance(value, ast.Tuple) and self.only_indexed(tgt.id):
+            # d = (x, y) where d is bound once and only ever read as d[i]: a tuple is immutable, so the list of the same
+            # elements behaves the same (indexing with IndexError); needed when i is not a literal
+            value = ast.copy_location(ast.List(elts=value.elts, ctx=ast.Load()), value)
+        b, x, t = self.expr(value, env)
+        return self.assign_to(tgt, b, x, t, value, s, rest, env, ctx, ind)
+
+    def only_indexed(self, name):
+        """is `name` bound exactly once in the function and every read of it the container of an index expression name[i]?"""
+        if name in self.all_params or name == self.kwname or name == self.selfname:
+            return False
+        indexed = set()
+        stores = 0
+        for n in ast.walk(self.fdef):
+            if isinstance(n, ast.Subscript) and isinstance(n.ctx, ast.Load) and not isinstance(n.slice, ast.Slice) \
+                    and isinstance(n.value, ast.Name) and n.value.id == name:
+                indexed.add(id(n.value))
+            if isinstance(n, (ast.FunctionDef, ast.Lambda)) and n is not self.fdef:
+                return False
+        for n in ast.walk(self.fdef):
+            if isinstance(n, ast.Name) and n.id == name:
+                if isinstance(n.ctx, ast.Store):
+                    stores += 1
+                elif id(n) not in indexed:
+                    return False
+        return stores == 1
+
+    def roots_in_dict(self, node, env):
+        """is the expression a part x['k'][i]... of a dict argument (or of a name already given to such a part)?"""
+        while isinstance(node, ast.Subscript) and not isinstance(node.slice, ast.Slice):
+            node = node.value
+        if not isinstance(node, ast.Name) or node.id not in env:
+            return False
+        t = resolve(env[node.id])
+        return node.id in self.readonly or (isinstance(t, tuple) and t[0] == "dict")
 
     def assign_display(self, tgt, value, s, rest, env, ctx, ind):
         """a, b = x, y : the right-hand side is evaluated completely, from left to right, then the targets are assigned
@@ -1303,6 +1443,10 @@ class FunTrans(object):
             name = tgt.id
             if resolve(t) == "unit":
                 fail(s, "assignment of None")
+            if name in self.readonly:
+                fail(s, "the name %s of a part of a dict argument is rebound" % name)
+            if isinstance(resolve(t), tuple) and resolve(t)[0] in ("list", "dict") and self.roots_in_dict(vnode, env):
+                self.readonly.add(name)       # ctrlpts = datadict['control_points']: read-only from here on (check_mutable)
             env[name] = t
             self.rebound = self.rebound | {name}
             self.facts.pop(name, None)
@@ -1931,6 +2075,13 @@ class FunTrans(object):
         env = {}
         for n, t in self.params:
             env[n] = t
+        # the names of the records of the dict types (and of the self attributes) may not be used as variables
+        taken = set()
+        for dname, fields in self.m.spec.get("dicts", {}).items():
+            taken |= set([dname, "mk_" + dname] + ["%s_%s" % (dname, k) for k in fields])
+        used = set(n.id for n in ast.walk(self.fdef) if isinstance(n, ast.Name)) | set(a.arg for a in ast.walk(self.fdef) if isinstance(a, ast.arg))
+        if taken & used:
+            fail(self.fdef, "the variable %s has the name of a record of the spec" % sorted(taken & used)[0])
         self.rebound = frozenset()
         self.handler_exc = None
         rt = self.rtype
@@ -1942,7 +2093,7 @@ class FunTrans(object):
         for k in self.kwparams:
             if k not in self.kwdefaults:
                 fail(self.fdef, "keyword argument %s of the spec is never read" % k)
-        coqname = self.spec["name"]
+        coqname = self.spec["name"].replace(".", "_")        # Class.method -> Class_method
         kworder = sorted(self.kwparams)
         lines = []
         for k in kworder:
@@ -1950,6 +2101,8 @@ class FunTrans(object):
                 lines.append("Definition %s__default_%s {T : Type} (K : ops T) : %s := %s." %
                              (coqname, k, coq_type(self.kwparams[k]), self.kwdefaults[k]))
         args = " ".join("(%s : %s)" % (mangle(n), coq_type(t)) for n, t in self.params)
+        if self.selfattrs:
+            args = " ".join(["(self_%s : %s)" % (a_, coq_type(t)) for a_, t in self.selfattrs] + [args])
         kargs = "".join(" (kw_%s : %s)" % (k, coq_type(self.kwparams[k])) for k in kworder)
         if self.spec.get("infinity_params", False):
             kargs += " (py_inf : T) (py_ninf : T)"
@@ -1978,7 +2131,7 @@ class FunTrans(object):
                 "raises": sorted(raises_of_text(body) | self.callee_raises),
                 "kwnodefault": [k for k in kworder if self.kwdefaults[k] is None],
                 "defaults": defaults, "rtype": rt, "all_params": self.all_params, "static_defaults": self.static_defaults,
-                "abstract": abstract,
+                "abstract": abstract, "selfattrs": list(self.selfattrs),
                 "infinity": bool(self.spec.get("infinity_params", False)),
                 "fntype": ("fn", tuple(t for _, t in self.params) + tuple(self.kwparams[k] for k in kworder), rt)}
         return "\n".join(lines), info
@@ -2036,6 +2189,20 @@ class ModTrans(object):
                 if n.name in self.defs:
                     raise Untranslatable("function %s defined twice" % n.name)
                 self.defs[n.name] = n
+        # classes: their methods are addressed as Class.method
+        self.classes = {}
+        for n in tree.body:
+            if isinstance(n, ast.ClassDef):
+                if n.name in self.classes or n.name in self.defs:
+                    raise Untranslatable("class %s defined twice" % n.name)
+                self.classes[n.name] = n
+                for st in n.body:
+                    if isinstance(st, ast.FunctionDef):
+                        key = "%s.%s" % (n.name, st.name)
+                        if key in self.defs and not any(isinstance(d, ast.Attribute) and d.attr in ("setter", "deleter")
+                                                        for d in st.decorator_list):
+                            raise Untranslatable("method %s defined twice" % key)
+                        self.defs[key] = st
         # names imported from other translated modules:  from .linalg import linspace / from . import linalg
         self.imported_funcs, self.imported_mods = {}, {}
         self.plain_imports = set()
@@ -2062,6 +2229,35 @@ class ModTrans(object):
             mod, fn = self.imported_funcs[name]
             return self.world.lookup(mod, fn, qualified=True)
         return None
+
+    def plain_class(self, cname, node):
+        """the ClassDef of a class whose body is only a docstring and methods (no class attributes, no nested classes), with
+        exactly one base class given by name, no keywords (metaclass=...) and only identity decorators (@utl.export)"""
+        c = self.classes.get(cname)
+        if c is None:
+            fail(node, "class %s is not defined in this module" % cname)
+        for st in c.body:
+            if not (isinstance(st, ast.FunctionDef) or is_docstring(st) or isinstance(st, ast.Pass)):
+                fail(node, "class %s has something else than methods in its body" % cname)
+        if c.keywords or len(c.bases) != 1 or not isinstance(c.bases[0], ast.Name):
+            fail(node, "class %s: exactly one base class, given by name, is understood" % cname)
+        for d in c.decorator_list:
+            name = d.attr if isinstance(d, ast.Attribute) and isinstance(d.value, ast.Name) else d.id if isinstance(d, ast.Name) else None
+            if name != "export":
+                fail(node, "class %s has a decorator that is not understood" % cname)
+        return c
+
+    def super_owner(self, cname, meth, node):
+        """the class whose definition of `meth` super(cname, self).meth refers to: the nearest proper ancestor that defines it"""
+        c = self.plain_class(cname, node)
+        for _ in range(len(self.classes) + 1):
+            base = c.bases[0].id
+            if base not in self.classes:
+                fail(node, "the base class %s is not defined in this module" % base)
+            if any(isinstance(st, ast.FunctionDef) and st.name == meth for st in self.classes[base].body):
+                return base
+            c = self.plain_class(base, node)
+        fail(node, "cyclic class hierarchy")
 
     def lookup_module_function(self, mod, fn):
         if mod in self.imported_mods:
@@ -2154,8 +2350,24 @@ def translate_blocks(repo_root, spec):
                 blocks.append((fname, None, "recursion limit"))
         deps = "".join(" Gen.%s" % r for r in mspec.get("requires", []))
         deps += "".join(" Gen.%s" % spec["modules"][d]["coq_module"] for d in mspec.get("imports", []))
-        out[mname] = (mspec["coq_module"], mspec.get("pymodule", mname), HEADER % (mspec["file"], deps), blocks)
+        out[mname] = (mspec["coq_module"], mspec.get("pymodule", mname), HEADER % (mspec["file"], deps) + records(mspec), blocks)
     return out
+
+
+def records(mspec):
+    """the dict types of SPEC ("dicts": name -> {key: type}) as Coq records (text that depends on SPEC only)"""
+    out = []
+    for dname, fields in mspec.get("dicts", {}).items():
+        for k in fields:
+            if not re.match(r"^[A-Za-z_][A-Za-z0-9_]*$", k):
+                raise Untranslatable("dict key %r is not an identifier" % k)
+        out.append("\n(* the dict type `%s` of SPEC: a record with one field per key *)" % dname)
+        out.append("Record %s (T : Type) : Type := mk_%s {" % (dname, dname))
+        out.append(";\n".join("  %s_%s : %s" % (dname, k, coq_type(parse_type(t))) for k, t in fields.items()))
+        out.append("}.")
+        out.append("Arguments mk_%s {T}." % dname)
+        out.append(" ".join("Arguments %s_%s {T}." % (dname, k) for k in fields))
+    return "\n".join(out) + ("\n" if out else "")
 
 
 def translate_variants(mt, fspec, fdef):
@@ -2234,12 +2446,16 @@ def check(repo_root, spec=None, gen_dir=GEN_DIR, out=sys.stdout):
 # ----------------------------------------------------------------------------------------------- the spec (trusted)
 FN_SPAN = "fn(int,list[float],int,float)->int"
 MAT = "list[list[float]]"
+# SplineGeometry.data as the evaluators read it (abstract.py); insertion order = field order of the record
+GEOMDATA = {"rational": "bool", "dimension": "int", "pdimension": "int", "sample_size": "list[int]", "precision": "int",
+            "degree": "list[int]", "knotvector": "list[list[float]]", "size": "list[int]", "control_points": MAT}
 SPEC = {
     # One Python file may be split over several spec modules (= generated files): the files of the first round
     # (LinalgInternal, Linalg, Knotvector, Helpers) are never regenerated with a different text, so that everything
     # compiled against them stays valid; later additions live in their own generated files ("pymodule" = the Python module
     # the functions are reported under by --check).
-    "order": ["_linalg", "linalg", "knotvector", "helpers", "linalg/geom", "_voxelize", "utilities", "linalg/mat", "helpers/b", "fitting"],
+    "order": ["_linalg", "linalg", "knotvector", "helpers", "linalg/geom", "_voxelize", "utilities", "linalg/mat", "helpers/b", "fitting",
+              "helpers/c", "evaluators"],
     "modules": {
         "_linalg": {"file": "geomdl/_linalg.py", "coq_module": "LinalgInternal", "imports": [], "functions": [
             {"name": "doolittle", "params": {"matrix_a": MAT}, "returns": "tuple[%s,%s]" % (MAT, MAT)},
@@ -2401,6 +2617,59 @@ SPEC = {
             {"name": "compute_params_curve", "params": {"points": MAT}, "static": {"centripetal": [False]},
              "returns": "list[float]", "checked_div": True,
              "abstract_calls": {"linalg.point_distance": {"param": "dist", "type": "fn(list[float],list[float])->float"}}},
+        ]},
+        # ---- third round: geomdl/evaluators.py -------------------------------------------------------------------------
+        "helpers/c": {"file": "geomdl/helpers.py", "pymodule": "helpers", "coq_module": "HelpersC",
+                      "requires": ["PreludeExt"], "imports": ["linalg", "helpers"], "functions": [
+            # N[j][i] is None above the diagonal (j > i): slots of type optfloat
+            {"name": "basis_function_all",
+             "params": {"degree": "int", "knot_vector": "list[float]", "span": "int", "knot": "float"},
+             "returns": "list[list[optfloat]]"},
+        ]},
+        # Methods are named Class.method (generated: Class_method).  `self` is only used for self._span_func, which becomes the
+        # parameter self__span_func; super(C, self).m(...) is the call of the translated method of the base class.
+        # datadict = SplineGeometry.data (abstract.py: Curve.data / Surface.data / Volume.data): a dict with a fixed key set,
+        # rendered as the record geomdata (tuples of the caller are lists; the keys type / delta / trims are never read).
+        # alias_ok (all methods): knotvector = datadict['knotvector'][0] etc. give second names to parts of the argument, which
+        # the translator checks are never updated in place (readonly); eval_points.append(crvpt) stores the list object crvpt,
+        # which is rebound to a new list ([0.0 for ...]) before the next in-place update crvpt[:] = ...; the same for spt, cpt
+        # and CK[k][:] = ... / SKL[k][l][:] = ... (replace the contents of a row nobody else holds).
+        "evaluators": {"file": "geomdl/evaluators.py", "coq_module": "Evaluators", "requires": ["PreludeExt"],
+                       "imports": ["linalg", "linalg/mat", "helpers", "helpers/b", "helpers/c"],
+                       "dicts": {"geomdata": GEOMDATA}, "functions": [
+            {"name": "CurveEvaluator.evaluate", "params": {"datadict": "dict:geomdata"},
+             "kwargs": {"start": "float", "stop": "float"}, "self_attrs": {"_span_func": FN_SPAN}, "returns": MAT, "alias_ok": True},
+            {"name": "CurveEvaluatorRational.evaluate", "params": {"datadict": "dict:geomdata"},
+             "kwargs": {"start": "float", "stop": "float"}, "self_attrs": {"_span_func": FN_SPAN}, "returns": MAT, "alias_ok": True},
+            {"name": "SurfaceEvaluator.evaluate", "params": {"datadict": "dict:geomdata"},
+             "kwargs": {"start": "list[float]", "stop": "list[float]"}, "self_attrs": {"_span_func": FN_SPAN}, "returns": MAT,
+             "alias_ok": True},
+            {"name": "SurfaceEvaluatorRational.evaluate", "params": {"datadict": "dict:geomdata"},
+             "kwargs": {"start": "list[float]", "stop": "list[float]"}, "self_attrs": {"_span_func": FN_SPAN}, "returns": MAT,
+             "alias_ok": True},
+            {"name": "VolumeEvaluator.evaluate", "params": {"datadict": "dict:geomdata"},
+             "kwargs": {"start": "list[float]", "stop": "list[float]"}, "self_attrs": {"_span_func": FN_SPAN}, "returns": MAT,
+             "alias_ok": True},
+            {"name": "VolumeEvaluatorRational.evaluate", "params": {"datadict": "dict:geomdata"},
+             "kwargs": {"start": "list[float]", "stop": "list[float]"}, "self_attrs": {"_span_func": FN_SPAN}, "returns": MAT,
+             "alias_ok": True},
+            # derivatives: parpos is the parameter (curves) / the pair of parameters (surfaces); **kwargs is never read
+            {"name": "CurveEvaluator.derivatives", "params": {"datadict": "dict:geomdata", "parpos": "float", "deriv_order": "int"},
+             "self_attrs": {"_span_func": FN_SPAN}, "returns": MAT, "alias_ok": True},
+            {"name": "CurveEvaluatorRational.derivatives",
+             "params": {"datadict": "dict:geomdata", "parpos": "float", "deriv_order": "int"},
+             "self_attrs": {"_span_func": FN_SPAN}, "returns": MAT, "alias_ok": True},
+            {"name": "CurveEvaluator2.derivatives", "params": {"datadict": "dict:geomdata", "parpos": "float", "deriv_order": "int"},
+             "self_attrs": {"_span_func": FN_SPAN}, "returns": MAT, "alias_ok": True},
+            {"name": "SurfaceEvaluator.derivatives",
+             "params": {"datadict": "dict:geomdata", "parpos": "list[float]", "deriv_order": "int"},
+             "self_attrs": {"_span_func": FN_SPAN}, "returns": "list[%s]" % MAT, "alias_ok": True},
+            {"name": "SurfaceEvaluatorRational.derivatives",
+             "params": {"datadict": "dict:geomdata", "parpos": "list[float]", "deriv_order": "int"},
+             "self_attrs": {"_span_func": FN_SPAN}, "returns": "list[%s]" % MAT, "alias_ok": True},
+            {"name": "SurfaceEvaluator2.derivatives",
+             "params": {"datadict": "dict:geomdata", "parpos": "list[float]", "deriv_order": "int"},
+             "self_attrs": {"_span_func": FN_SPAN}, "returns": "list[%s]" % MAT, "alias_ok": True},
         ]},
         "utilities": {"file": "geomdl/utilities.py", "coq_module": "Utilities", "requires": ["PreludeExt"],
                       "imports": [], "functions": [
